@@ -41,6 +41,15 @@ def _give(l):
         pass
 
 
+def _raised_in_harness(e):
+    """an exception whose innermost frame is harness code, unless the real object behind a proxy raised it"""
+    import traceback
+    if getattr(e, "_from_impl", False):
+        return False
+    tb = traceback.extract_tb(e.__traceback__)
+    return bool(tb) and tb[-1].filename.endswith(("hub_sched.py", "hub_common.py"))
+
+
 class _Abort(BaseException):
     pass
 
@@ -54,8 +63,10 @@ class Run:
     STALE = 220
     WATCHDOG = 2.5       # seconds of wall clock a resumed thread may take to reach its next scheduling point
 
-    def __init__(self, cfg, trace_socket_py=False, max_steps=6000):
+    def __init__(self, cfg, trace_socket_py=False, max_steps=6000, live=False, reset_api=False):
         self.cfg = cfg
+        self.live = live              # use the hub object the exported socket classes are bound to (module global)
+        self.reset_api = reset_api    # start this run by calling the public reset_socket_hub()
         self.n = len(cfg)
         self.hubmod = importlib.import_module("netqasm.sdk.classical_communication.thread_socket.socket_hub")
         self.sockmod = importlib.import_module("netqasm.sdk.classical_communication.thread_socket.socket")
@@ -89,6 +100,7 @@ class Run:
         self.line_sched = []                  # the line-level schedule actually executed
         self.failed_acq = [False] * self.n
         self.errors = []
+        self.harness_errors = []      # the harness itself failed: never reported as a property violation
         self.mode = "line"
         self.end_reason = None
         self._build()
@@ -100,117 +112,168 @@ class Run:
         def me():
             return getattr(run.tls, "tid", -1)
 
-        MUT = ("_add", "_del", "_discard", "_set", "_pop", "q_app", "q_pop", "q_insert", "q_clear", "q_del", "call_")
+        MUT = ("_add", "_del", "_discard", "_set", "_pop", "q_app", "q_pop", "q_insert", "q_clear", "q_del", "call_",
+               "cv_notify", "ev_set", "ev_clear", "sem_rel")
 
-        def rec(label, arg=None, pre=True):
+        def touched():
+            for i in range(run.n):
+                run.sleeps[i] = 0
+                run.stale[i] = 0
+
+        def rec(label, arg=None, pre=True, mut=None, defer=False):
             if run.aborting:          # unwinding of blocked threads at the end of a run is not part of the execution
                 return
             if pre and run.mode == "access":
                 run.park()            # access granularity: park BEFORE every shared access
             run.log.append((me(), label, arg))
-            if any(m in label for m in MUT):      # only a change of shared state restarts the quiescence count
-                for i in range(run.n):
-                    run.sleeps[i] = 0
-                    run.stale[i] = 0
+            if defer:
+                return                # the proxy decides after the operation whether shared state changed
+            if mut or (mut is None and any(m in label for m in MUT)):      # only a change of shared state restarts the quiescence count
+                touched()
 
-        class LSet(set):
-            def __init__(s, nm):
-                super().__init__()
-                s.nm = nm
+        # ---- generic recording proxy: whatever container the hub creates (set, dict, defaultdict, list, deque, ...)
+        # is wrapped; every attribute / operator is forwarded to the real object, every use is one recorded shared
+        # access.  The label is derived at run time from the kind of the real object and the operation; whether the
+        # access wrote is found by comparing the object before and after; an operation that is not known to be a
+        # pure read and changed nothing still counts as a write (read+write).
+        import collections
+        import collections.abc as cabc
+        PREFIX = {"_open_sockets": "open", "_remote_sockets": "rem", "_messages": "q",
+                  "_recv_callbacks": "rcb", "_conn_lost_callbacks": "lcb"}
+        READS = {"__len__", "__bool__", "__iter__", "__contains__", "__getitem__", "get", "keys", "values", "items",
+                 "copy", "count", "index", "__eq__", "__ne__", "__repr__", "__str__", "__reversed__", "issubset",
+                 "issuperset", "isdisjoint", "union", "intersection", "difference", "__or__", "__and__", "__sub__",
+                 "__add__", "__lt__", "__le__", "__gt__", "__ge__"}
+        SET_OPS = {"__contains__": "has", "add": "add", "remove": "del", "discard": "discard"}
+        MAP_OPS = {"__getitem__": "get", "get": "get", "__contains__": "has", "__setitem__": "set", "pop": "pop",
+                   "__delitem__": "pop", "setdefault": "setdefault"}
+        SEQ_OPS = {"__len__": "len", "__bool__": "len", "append": "app", "popleft": "pop", "insert": "insert",
+                   "appendleft": "insert", "clear": "clear", "__delitem__": "del", "__getitem__": "getitem",
+                   "__iter__": "iter", "extend": "extend"}
+        CONTAINERS = (set, frozenset, dict, list, collections.deque)
 
-            def __contains__(s, k):
-                rec(s.nm + "_has", list(k))
-                return set.__contains__(s, k)
+        def kind_of(raw):
+            if isinstance(raw, (set, frozenset, cabc.Set)):
+                return "set"
+            if isinstance(raw, cabc.Mapping):
+                return "map"
+            return "seq"
 
-            def add(s, k):
-                rec(s.nm + "_add", list(k))
-                set.add(s, k)
+        def snap(raw):
+            try:
+                if isinstance(raw, cabc.Mapping):
+                    return [(k, snap(v) if isinstance(v, CONTAINERS) else id(v)) for k, v in list(dict.items(raw))
+                            ] if isinstance(raw, dict) else list(raw.items())
+                if isinstance(raw, (set, frozenset)):
+                    return set(raw)
+                return list(raw)
+            except Exception:
+                return None
 
-            def remove(s, k):
-                rec(s.nm + "_del", list(k))
-                set.remove(s, k)
+        def label_of(p, op, args):
+            kind, pre = p._kind, p._nm
+            if kind == "set":
+                nm = SET_OPS.get(op, op)
+            elif kind == "map":
+                if pre == "q" and op in ("__getitem__", "get", "setdefault"):
+                    return "q_ref"
+                nm = MAP_OPS.get(op, op)
+            else:
+                if op == "pop":
+                    nm = "pop" if args[:1] == (0,) else "pop_other"
+                else:
+                    nm = SEQ_OPS.get(op, op)
+            return f"{pre}_{nm}"
 
-            def discard(s, k):
-                rec(s.nm + "_discard", list(k))
-                set.discard(s, k)
+        children = {}
 
-        class LList(list):
-            key = None
+        def wrap(v, nm, key=None):
+            """wrap containers (only), one proxy per real object"""
+            if isinstance(v, Rec) or not isinstance(v, CONTAINERS):
+                return v
+            pr = children.get(id(v))
+            if pr is None or pr._raw is not v:
+                pr = Rec(v, nm, key)
+                children[id(v)] = pr
+            return pr
 
-            def __len__(s):
-                rec("q_len", s.key)
-                return list.__len__(s)
+        class Rec:
+            __slots__ = ("_raw", "_nm", "_key", "_kind", "__weakref__")
 
-            def append(s, m):
-                rec("q_app", s.key)
-                run.appended.setdefault(tuple(s.key), []).append(m)
-                list.append(s, m)
+            def __init__(s, raw, nm, key=None):
+                object.__setattr__(s, "_raw", raw)
+                object.__setattr__(s, "_nm", nm)
+                object.__setattr__(s, "_key", key)
+                object.__setattr__(s, "_kind", kind_of(raw))
 
-            def pop(s, *a):
-                rec("q_pop" if a == (0,) else "q_pop_other", s.key)
-                return list.pop(s, *a)
+            @property
+            def __class__(s):          # isinstance(proxy, list / dict / ...) answers like the real object
+                return type(s._raw)
 
-            def insert(s, *a):
-                rec("q_insert", s.key)
-                return list.insert(s, *a)
+            def _do(s, op, *a, **k):
+                raw = s._raw
+                args = tuple(x._raw if isinstance(x, Rec) else x for x in a)
+                arg = s._key if s._kind == "seq" else (list(args[0]) if args and isinstance(args[0], tuple) else None)
+                lab = label_of(s, op, args)
+                known_read = op in READS and not (isinstance(raw, collections.defaultdict) and op == "__getitem__")
+                rec(lab, arg, mut=False if known_read else None, defer=True)
+                before = None if known_read else snap(raw)
+                try:
+                    res = getattr(raw, op)(*args, **k) if op != "__bool__" else bool(raw)
+                except BaseException as e:      # the real object refused: that is the implementation's doing
+                    try:
+                        e._from_impl = True
+                    except Exception:
+                        pass
+                    raise
+                if not known_read:
+                    after = snap(raw)
+                    changed = before is None or after is None or before != after or (op not in READS and lab.split("_")[-1] not in ("ref",))
+                    if s._nm == "q" and s._kind == "seq" and before is not None and after is not None and len(after) > len(before):
+                        new = after[len(before):] if after[:len(before)] == before else after[:len(after) - len(before)]
+                        run.appended.setdefault(tuple(s._key or ()), []).extend(new)
+                    if changed:
+                        touched()
+                if s._kind == "map" and isinstance(res, CONTAINERS):
+                    res = wrap(res, s._nm, list(args[0]) if args and isinstance(args[0], tuple) else None)
+                return res
 
-            def clear(s):
-                rec("q_clear", s.key)
-                return list.clear(s)
+            def __getattr__(s, name):
+                try:
+                    attr = getattr(s._raw, name)
+                except AttributeError as e:        # the real object has no such attribute: the implementation's doing
+                    e._from_impl = True
+                    raise
+                if callable(attr):
+                    return lambda *a, **k: s._do(name, *a, **k)
+                return attr
 
-            def __delitem__(s, i):
-                rec("q_del", s.key)
-                return list.__delitem__(s, i)
+            def __setattr__(s, name, value):
+                setattr(s._raw, name, value)
 
-            def __getitem__(s, i):
-                rec("q_getitem", s.key)
-                return list.__getitem__(s, i)
+            def __len__(s): return s._do("__len__")
+            def __bool__(s): return s._do("__bool__")
+            def __iter__(s): return s._do("__iter__")
+            def __reversed__(s): return s._do("__reversed__")
+            def __contains__(s, x): return s._do("__contains__", x)
+            def __getitem__(s, k): return s._do("__getitem__", k)
+            def __setitem__(s, k, v): return s._do("__setitem__", k, v)
+            def __delitem__(s, k): return s._do("__delitem__", k)
+            def __eq__(s, o): return s._do("__eq__", o)
+            def __ne__(s, o): return s._do("__ne__", o)
+            def __repr__(s): return repr(s._raw)
+            def __str__(s): return str(s._raw)
+            def __or__(s, o): return s._do("__or__", o)
+            def __and__(s, o): return s._do("__and__", o)
+            def __sub__(s, o): return s._do("__sub__", o)
+            def __add__(s, o): return s._do("__add__", o)
+            def __ior__(s, o): s._do("__ior__", o); return s
+            def __iand__(s, o): s._do("__iand__", o); return s
+            def __isub__(s, o): s._do("__isub__", o); return s
+            def __iadd__(s, o): s._do("__iadd__", o); return s
+            __hash__ = None
 
-            def __iter__(s):
-                rec("q_iter", s.key)
-                return list.__iter__(s)
-
-        class LDD(defaultdict):
-            def __getitem__(s, k):
-                rec("q_ref", list(k))
-                if not dict.__contains__(s, k):
-                    v = LList()
-                    v.key = list(k)
-                    dict.__setitem__(s, k, v)
-                return dict.__getitem__(s, k)
-
-            def get(s, k, d=None):
-                rec("q_get", list(k))
-                return dict.get(s, k, d)
-
-        class LDict(dict):
-            def __init__(s, nm):
-                super().__init__()
-                s.nm = nm
-
-            def get(s, k, d=None):
-                rec(s.nm + "_get", list(k))
-                return dict.get(s, k, d)
-
-            def __getitem__(s, k):
-                rec(s.nm + "_get", list(k))
-                return dict.__getitem__(s, k)
-
-            def __contains__(s, k):
-                rec(s.nm + "_has", list(k))
-                return dict.__contains__(s, k)
-
-            def __setitem__(s, k, v):
-                rec(s.nm + "_set", list(k))
-                dict.__setitem__(s, k, v)
-
-            def pop(s, k, *d):
-                rec(s.nm + "_pop", list(k))
-                return dict.pop(s, k, *d)
-
-            def __delitem__(s, k):
-                rec(s.nm + "_pop", list(k))
-                dict.__delitem__(s, k)
+        self.Rec = Rec
 
         def wait_park(label):
             """a blocking wait that is not satisfied yet: a scheduling point that counts like a polling sleep"""
@@ -429,43 +492,77 @@ class Run:
                     self._patched.append((mod, nm, val))
                     setattr(mod, nm, rep)
 
-        hub = self.hubmod._SocketHub()
-        hub._open_sockets = LSet("open")
-        hub._remote_sockets = LSet("rem")
-        hub._messages = LDD(list)
-        hub._recv_callbacks = LDict("rcb")
-        hub._conn_lost_callbacks = LDict("lcb")
+        def hub_setattr(h, name, value):
+            object.__setattr__(h, name, wrap(value, PREFIX.get(name, name.lstrip("_"))))
+
+        if not self.live:
+            RecHub = type("RecHub", (self.hubmod._SocketHub,), {"__setattr__": hub_setattr})
+            hub = RecHub()
+        else:
+            # the hub the exported socket classes really use (bound at import time), instrumented in place
+            hub = self.sockmod.ThreadSocket._SOCKET_HUB
+            plain = next(c for c in type(hub).__mro__ if c.__name__ != "RecHub")
+            self._live_plain = plain
+            object.__setattr__(hub, "__class__", type("RecHub", (plain,), {"__setattr__": hub_setattr}))
+            if self.reset_api:
+                self.hubmod.reset_socket_hub()        # the public way of starting from a fresh hub
+            else:
+                hub.__init__()
+            hub = self.sockmod.ThreadSocket._SOCKET_HUB
+            for name, val in list(vars(hub).items()):  # take over whatever state is there now
+                raw = val._raw if type(val).__name__ == "Rec" else val
+                object.__setattr__(hub, name, wrap(raw, PREFIX.get(name, name.lstrip("_"))))
         if not isinstance(getattr(hub, "_lock", None), CoopLock):
-            hub._lock = CoopLock()
+            object.__setattr__(hub, "_lock", CoopLock())
         self.hub = hub
 
 
-        class HSock(self.sockmod.ThreadSocket):
-            _SOCKET_HUB = hub
-            _tid = -1
+        # every socket class socket.py exports (ThreadSocket, StorageThreadSocket, ...) gets a thin subclass that
+        # tags the owning thread, records callback calls and does not disconnect on garbage collection
+        import inspect
+        base = self.sockmod.ThreadSocket
+        exported = [c for c in vars(self.sockmod).values() if isinstance(c, type) and issubclass(c, base)]
 
-            def __init__(s, tid, *a, **kw):
-                s._tid = tid
-                super().__init__(*a, **kw)
+        def make_h(C):
+            class H(C):
+                _tid = -1
 
-            def recv_callback(s, msg):
-                rec("call_recv", s._tid)
-                run.cb_events.append((len(run.log) - 1, s._tid, msg))     # when the callback observed the message
-                run.storage[s._tid].append(msg)
+                def __init__(s, tid, *a, **kw):
+                    s._tid = tid
+                    C.__init__(s, *a, **kw)
 
-            def conn_lost_callback(s):
-                rec("call_lost", s._tid)
-                run.lost[s._tid] += 1
+                def recv_callback(s, msg):
+                    if run.mode == "access" and not run.aborting:
+                        run.park()
+                    C.recv_callback(s, msg)          # the class's own behaviour (StorageThreadSocket stores the message)
+                    rec("call_recv", s._tid, pre=False)          # recorded when the message has been taken (its effect)
+                    at = len(run.log) - 1
+                    run.cb_events.append((at, s._tid, msg))     # when the callback observed the message
+                    run.storage[s._tid].append(msg)
 
-            def __del__(s):     # no implicit disconnect: Disconnect is an explicit op
-                pass
+                def conn_lost_callback(s):
+                    rec("call_lost", s._tid)
+                    run.lost[s._tid] += 1
 
+                def __del__(s):     # no implicit disconnect: Disconnect is an explicit op
+                    pass
+
+            H.__name__ = "H" + C.__name__
+            H._takes_cb = "use_callbacks" in inspect.signature(C.__init__).parameters
+            if not run.live:
+                H._SOCKET_HUB = hub
+            return H
+
+        self.hcls = {C.__name__: make_h(C) for C in exported}
+        HSock = self.hcls["ThreadSocket"]
         self.HSock = HSock
         self.socks = [None] * self.n
 
     # ---------------------------------------------------------------- worker side
     def park(self):
         tid = self.tls.tid
+        if self.aborting:          # the run is being torn down (also reached from line events while unwinding)
+            raise _Abort()
         if self.away[tid]:
             # this thread had been given up by the watchdog (it sat in a wait the scheduler cannot see) and
             # has come back by itself: it becomes schedulable again, the scheduler is not waiting for it
@@ -486,9 +583,12 @@ class Run:
                 run.park()
             return local
 
+        sockfile = self.sockmod.__file__
+
         def glob(frame, event, arg):
-            if frame.f_code.co_filename in run.files:
-                return local
+            fn = frame.f_code.co_filename
+            if fn in run.files or (fn == sockfile and frame.f_code.co_name == "__init__"):
+                return local        # hub / broadcast code, and the CONSTRUCTORS of the socket classes
             return None
 
         return glob
@@ -499,9 +599,13 @@ class Run:
             return self._do_bc(tid, th, op)
         k = th["key"]
         if op[0] == "connect":
-            s = self.HSock.__new__(self.HSock)
+            H = self.hcls[th.get("cls", "ThreadSocket")]
+            s = H.__new__(H)
             self.socks[tid] = s     # keep alive even when the constructor is aborted
-            s.__init__(tid, k[0], k[1], socket_id=k[2], use_callbacks=bool(th["cb"]))
+            kw = dict(socket_id=k[2])
+            if H._takes_cb:
+                kw["use_callbacks"] = bool(th["cb"])
+            s.__init__(tid, k[0], k[1], **kw)
             return "ok"
         s = self.socks[tid]
         if s is None:               # an endpoint object that never connected: build it without connecting
@@ -581,15 +685,21 @@ class Run:
                     r = "empty" if op[0] == "recvnb" else "runtime"
                 except KeyError:
                     r = "keyerr"
+                except Exception as e:          # any other exception: the implementation's or the harness's?
+                    if _raised_in_harness(e):
+                        raise
+                    r = "crash:" + type(e).__name__
                 self.results[tid].append((i, r, start, self.stamp, lstart, len(self.log)))
                 self.stale[tid] = 0
             self.status[tid] = "done"
         except _Abort:
             self.status[tid] = "blocked"
             self.results[tid].append((cur[0], "blocked", -1, -1, -1, len(self.log)))
-        except BaseException as e:       # noqa
+        except BaseException as e:       # noqa: a defect of the harness, never a verdict about the hub
+            import traceback
             self.status[tid] = "done"
-            self.errors.append(f"thread {tid}: {type(e).__name__}: {e}")
+            tb = traceback.extract_tb(e.__traceback__)[-1]
+            self.harness_errors.append(f"thread {tid}: {type(e).__name__}: {e} (at {tb.filename.split('/')[-1]}:{tb.lineno})")
         finally:
             sys.settrace(None)
             if self.away[tid]:
@@ -608,6 +718,8 @@ class Run:
         _give(self.sems[tid])
         if not self.main.acquire(True, self.WATCHDOG):
             self._stuck(tid)
+        if self.failed_acq[tid]:
+            self.stale[tid] -= 1          # a step spent waiting for a lock is not idle spinning
 
     def _stuck(self, tid):
         """the resumed thread reached no scheduling point within the wall-clock bound: it is blocked inside
@@ -673,7 +785,7 @@ class Run:
                     break
                 if steps >= self.max_steps:
                     self.end_reason = "budget"
-                    self.errors.append("step budget exhausted")
+                    self.harness_errors.append("step budget exhausted (no completion, no quiescence)")
                     break
                 tid = chooser(self, r)
                 if tid is None:
@@ -696,10 +808,40 @@ class Run:
             self.restore()
         return self
 
+    def cleanup_live(self):
+        """give the module-level hub back: plain class, fresh state (call after the last live run)"""
+        hub = self.sockmod.ThreadSocket._SOCKET_HUB
+        object.__setattr__(hub, "__class__", self._live_plain)
+        hub.__init__()
+
     def restore(self):
         for mod, nm, val in reversed(self._patched):
             setattr(mod, nm, val)
         self._patched = []
+
+    # ---------------------------------------------------------------- raw views of the hub (no recording)
+    def _rawattr(self, name):
+        v = getattr(self.hub, name, None)
+        return v._raw if isinstance(v, self.Rec) else v
+
+    def raw_queues(self):
+        """{key tuple: [payloads]} of the hub's pending messages, whatever containers it uses"""
+        out = {}
+        m = self._rawattr("_messages")
+        try:
+            for k, v in list(m.items()):
+                v = v._raw if isinstance(v, self.Rec) else v
+                out[tuple(k)] = list(v)
+        except Exception:
+            pass
+        return out
+
+    def raw_keys(self, name):
+        v = self._rawattr(name)
+        try:
+            return [tuple(k) for k in list(v)]
+        except Exception:
+            return []
 
     # ---------------------------------------------------------------- observations
     def outcome(self):
@@ -711,12 +853,12 @@ class Run:
                 res.append(r if isinstance(r, str) else list(r))
             th.append(dict(res=res, store=list(self.storage[t]), lost=self.lost[t]))
         q = {}
-        for k, v in dict.items(self.hub._messages):
-            if list.__len__(v):
-                q[str(list(k))] = list(list.__iter__(v))
+        for k, v in self.raw_queues().items():
+            if v:
+                q[str(list(k))] = list(v)
         return dict(threads=th, queues=q,
-                    open=sorted(list(k) for k in set.__iter__(self.hub._open_sockets)),
-                    rem=sorted(list(k) for k in set.__iter__(self.hub._remote_sockets)))
+                    open=sorted(list(k) for k in self.raw_keys("_open_sockets")),
+                    rem=sorted(list(k) for k in self.raw_keys("_remote_sockets")))
 
     def access_schedule(self):
         return [t for (t, _l, _a) in self.log]
